@@ -38,12 +38,13 @@ func init() {
 			return []string{"release", "386"}
 		},
 		Exhaustive: nil,
-		Required:   []string{"long-run/calls>=100000-per-function", "cold-start/all-ones-path-first", "field/l=0", "field/l=h", "field/h=32", "field/h=0", "order/ancestor-descendant", "order/left-right-subtrees", "order/equal", "order/h>=13", "pathstr/retained-results-reread", "field/relatives-in-consecutive-calls"},
+		Required:   []string{"pathstr/more-than-2^17-distinct-paths-each-rendered-twice", "long-run/calls>=100000-per-function", "cold-start/all-ones-path-first", "field/l=0", "field/l=h", "field/h=32", "field/h=0", "order/ancestor-descendant", "order/left-right-subtrees", "order/equal", "order/h>=13", "pathstr/retained-results-reread", "field/relatives-in-consecutive-calls"},
 		Families: func(c *mon.Config) []mon.Family {
 			hp := c.Pick(8, 12)
 			return []mon.Family{
 				{Name: "cold-start", N: 1, Serial: true, Run: c10Cold},
 				{Name: "fields-small", N: 13, Run: c10FieldsSmall},
+				{Name: "pathstr-many-distinct", N: 1, NoCold: true, Run: c10ManyDistinct},
 				{Name: "fields-large", Env: 10, N: 20 * c.Pick(100, 50000), Run: c10FieldsLarge},
 				{Name: "order-all-pairs", N: (1 << uint(hp+1)) * 2, Run: func(w *mon.W, idx int) { c10OrderAll(w, idx, hp) }},
 				{Name: "order-sampled", Env: 10, N: 20 * c.Pick(250, 100000), Run: c10OrderSampled},
@@ -328,4 +329,52 @@ func c10Cold(w *mon.W, _ int) {
 		}
 	}
 	w.Bucket("cold-start/all-ones-path-first")
+}
+
+// c10ManyDistinct (round 12): every node of a height-17 tree (262 143 distinct path words), each rendered twice in a row
+// and once more a little later (a table of interned strings whose 16-bit entry id narrowed when the table filled up was
+// seeded: the first rendering of the 65 537th distinct word was right, every later one returned the first string of the
+// table).
+func c10ManyDistinct(w *mon.W, _ int) {
+	const h = 17
+	type late struct {
+		p uint64
+		s string
+	}
+	var ring [64]late
+	n := 0
+	ok := true
+	bmPreorder(h, func(l int, prefix uint64) {
+		if !ok {
+			return
+		}
+		p := bmPathWord(prefix, l, h)
+		e := c10Text(prefix, l)
+		w.Op, w.A, w.B = "PathStr(many distinct)", int64(l), int64(prefix)
+		a, b := bmtree.PathStr(p), bmtree.PathStr(p)
+		if a != e || b != e {
+			w.Fail("PathStr/many-distinct-paths", mon.D{"h": h, "path": e, "first_rendering": a, "second_rendering": b, "distinct_paths_before": n})
+			ok = false
+			return
+		}
+		if old := ring[n&63]; old.s != "" || n >= 64 {
+			if g := bmtree.PathStr(old.p); g != old.s {
+				w.Fail("PathStr/many-distinct-paths", mon.D{"h": h, "path": old.s, "rendered_again_64_paths_later": g, "distinct_paths_before": n})
+				ok = false
+				return
+			}
+		}
+		ring[n&63] = late{p, e}
+		n++
+		if n&8191 == 0 {
+			w.Tick()
+		}
+	})
+	if !ok {
+		return
+	}
+	w.Eval(int64(3 * n))
+	w.Bucket("pathstr/more-than-2^17-distinct-paths-each-rendered-twice")
+	w.Distinct(gen.Hash64(0x2b10, uint64(n)))
+	w.Sample(func() interface{} { return mon.D{"height": h, "distinct_paths": n} })
 }
